@@ -102,3 +102,11 @@ Theorem C14_targets_agree_on_stacks : forall (w : world) ws r sc sc' v st,
   map_target w (S (List.length ws)) (hd r ws) sc (v, st) = target w (S (List.length ws)) (hd r ws) sc' (v, st).
 Proof. exact targets_agree_on_stacks. Qed.
 Print Assumptions C14_targets_agree_on_stacks.
+(* … and through let-bound NAMES (`let cfg = { … }; in cfg`, `… in mk`-less): with non-empty chains both walks give the name its context, read its value
+   and continue there; they find the same set and enter the same nodes (the stores differ: the chains written into the contexts do) *)
+Theorem C14_targets_agree_through_names : forall (w : world) ws r sc sc' v st,
+  linked3 w ws r -> w_cls w r = CSet -> NoDup (ws ++ [r]) -> (forall x, In x (ws ++ [r]) -> ~ In x v) -> lookups_truthy w (ws ++ [r]) -> chain_ok w sc -> chain_ok w sc' ->
+  let a := map_target w (S (List.length ws)) (hd r ws) sc (v, st) in let b := target w (S (List.length ws)) (hd r ws) sc' (v, st) in
+  fst a = RVal r /\ fst b = RVal r /\ fst (snd a) = fst (snd b).
+Proof. exact targets_agree_through_names. Qed.
+Print Assumptions C14_targets_agree_through_names.
